@@ -13,6 +13,9 @@ package main
 //             are equal (class of the known finding KF-C05-1, counted, must then read the data)
 //   shared    several filespaces side by side whose Secret/Salt slices share backing arrays with spare capacity,
 //             buffers scribbled over afterwards: each reads its own file and refuses the others'
+//   handles   random histories with several open readers/writers at once (hist.go: genHistSteps), sizes from classes
+//             0 … 64 KiB+1, judged by a plaintext-level bookkeeping (specHist): everything a reader delivers is the
+//             content its file had when the reader was opened, whatever was opened/read/written meanwhile
 //   ns        random sequences of name-space operations on the encrypted filespace and on a plain twin
 //
 // Output: `FAIL <class> <detail>` per failed case, `NOTE …` lines, one summary line `oracle cases=… fails=… …`.
@@ -775,6 +778,7 @@ func oracle(w *bufio.Writer, tier string) {
 	o.batch("wrong keys", 600*time.Second, o.wrongKeys)
 	o.batch("shared buffers", 600*time.Second, o.sharedBuffers)
 	o.batch("side by side", 600*time.Second, o.sideBySide)
+	o.batch("open handles", 600*time.Second, o.handleHistories)
 	o.nsSequences()
 	keys := make([]string, 0, len(o.classes))
 	for k := range o.classes {
